@@ -53,8 +53,9 @@ FOREST = [("Server", "Server", None, ["x86_64", "s390x"]), ("optional", "Server-
           ("HA", "Server-HA", "Server", ["x86_64", "s390x"]), ("Client", "Client", None, ["x86_64"])]
 
 
-def composeinfo_old(sym, layout, ctype, layered, with_label):
-    """a composeinfo document of an older layout is loaded as the same facts and re-written as a current document"""
+def composeinfo_old(sym, layout, ctype, layered, with_label, stale=False):
+    """a composeinfo document of an older layout is loaded as the same facts and re-written as a current document.
+    stale: a pre-0.3 document also carries type/date/respin fields that disagree with its id - before 0.3 the id is what counts"""
     if layout == "0.0-0.2":
         major, minor = 0, sym.int("minor", 0, 2)
     elif layout == "0.3":
@@ -73,6 +74,10 @@ def composeinfo_old(sym, layout, ctype, layered, with_label):
     if layout == "0.0-0.2":
         cid = "Prod-1.0-" + date + SUFFIX[ctype] + "." + str(respin)
         compose = {"id": cid, "type": ctype}
+        if stale:
+            compose["type"] = sym.one_of("stale_type", COMPOSE_TYPES)
+            compose["date"] = sym.str("stale_date", 8, minlen=8, alphabet="digits")
+            compose["respin"] = sym.int("stale_respin", 0, 99)
     else:
         # from 0.3 on the fields are authoritative; the id is only an identifier and need not encode the same values
         cid = "Prod-1.0-" + sym.str("id_date", 8, minlen=8, alphabet="digits") + [".n", "", ".t"][len(ctype) % 3] + "." + str(sym.int("id_respin", 0, 99))
@@ -433,6 +438,9 @@ def jobs(tier, seed):
                 for wl in (False, True):
                     if big or (li + ci_ + layered + wl + seed) % 4 == 0:
                         out.append({"harness": "composeinfo_old", "params": {"layout": layout, "ctype": ctype, "layered": layered, "with_label": wl}})
+    for ci_, ctype in enumerate(COMPOSE_TYPES):
+        if big or (ci_ + seed) % 2 == 0:
+            out.append({"harness": "composeinfo_old", "params": {"layout": "0.0-0.2", "ctype": ctype, "layered": False, "with_label": False, "stale": True}})
     for ws in (True, False):
         for wf in (True, False):
             out.append({"harness": "images_old", "params": {"with_subvariant": ws, "with_format": wf}})
